@@ -22,6 +22,9 @@ def run(tier, a=None):
     res = common.Result("C12", tier)
     cfgs = select_cfgs(tier, a)
     runner.run_families(res, cfgs, ["cmathx"], type_filter(a), keytag="value")
+    # again with -frounding-math (no folding under the default-environment assumption)
+    strict_cfgs = [c for c in cfgs if tier != "quick" or c.name in ("SSE2", "AVX2", "everything")] or cfgs
+    runner.run_families(res, strict_cfgs, ["cmathx"], type_filter(a), keytag="value", strictfp=True)
     res.trusted = ["clang 14 front end and -O2 pipeline preserve the meaning of UB-free executions",
                    "LLVM LangRef semantics of the IR instructions; Intel SDM semantics of the x86 intrinsics as modelled in spec/isa.py",
                    "the term normaliser, the exact IEEE evaluator (lib/fpeval.py) and the abstract interpreter (lib/absint.py, self-tested against the concrete evaluator)"]
